@@ -394,7 +394,7 @@ func varargs(v ssa.Value) []ssa.Value {
 		return nil
 	}
 	al, ok := sl.X.(*ssa.Alloc)
-	if !ok {
+	if !ok || al.Comment != "varargs" {
 		return nil
 	}
 	arr, ok := al.Type().Underlying().(*types.Pointer).Elem().Underlying().(*types.Array)
